@@ -1,5 +1,6 @@
 import Ysshra.Drv.Codec
 import Ysshra.Drv.Msg
+import Ysshra.Drv.Attest
 /-
 `ymodel`: the executable models and specification predicates behind a line protocol.
   in : id \t op \t arg… [\t ## \t implementation-output…]
@@ -10,7 +11,7 @@ Core-only imports (links as a `lean_exe`).
 open Ysshra Ysshra.IO Ysshra.Drv
 
 def handlers : List (String → List String → Option (List String) → Option Reply) :=
-  [handleCodec, handleMsg]
+  [handleCodec, handleMsg, handleAttest]
 
 def dispatch (op : String) (args : List String) (impl : Option (List String)) : Reply :=
   match handlers.findSome? (fun h => h op args impl) with
